@@ -642,6 +642,10 @@ def step (st : St) (line : String) : St × String :=
             match getSlot st.usks i with
             | some m => decide (Shape.usk v = Shape.usk (if cfg == "p256" then m.toWire zeroLeavesP256 else m.toWire zeroLeavesC25519))
             | none => false))
+        | "enc", 'E' => (Wire.deserialize (Wire.xenc c) bs).map (fun v => (Wire.lenXenc c v, Wire.encXenc v,
+            match getSlot st.encs i with
+            | some (x, _) => decide (Shape.enc v = Shape.enc (if cfg == "p256" then x.toWire zeroLeavesP256 else x.toWire zeroLeavesC25519))
+            | none => false))
         | "struct", 'S' => (Wire.deserialize Wire.struct_ bs).map (fun v => (Wire.lenStruct v, Wire.encStruct v,
             match getSlot st.msks i with
             | some m => decide (Shape.struct_ v = Shape.struct_ m.structure_.toWire)
